@@ -15,10 +15,11 @@ import (
 // so that the native runner and the fingerprint/diff oracles treat them like generated functions.
 
 type special struct {
-	Name   string
-	Files  map[string]string // extra files of the module (sub-packages), shared by P and Q
-	P, Q   string            // source of a.go
-	Family string
+	Name    string
+	Files   map[string]string // extra files of the module (sub-packages), shared by P and Q
+	P, Q    string            // source of a.go
+	Family  string
+	Changed string // the function whose behaviour the edit changes ("" = Special)
 }
 
 func specialHeader(imports ...string) string {
@@ -115,6 +116,19 @@ func genSpecials(r *Rng) []special {
 	}
 	out = append(out, special{Name: "slice-low-bound-moved-to-high", Family: "slice-bounds", P: sl("xs[1:]"), Q: sl("xs[:1]")})
 	out = append(out, special{Name: "slice-high-bound-moved-to-max", Family: "slice-bounds", P: sl("xs[1:2]"), Q: sl("xs[:1:2]")})
+	// 2f. the only edit is the IMPORT SET: a blank import of a package whose initialiser has a side effect
+	//     (the program prints one more line; the changed function is the package initialiser `init`)
+	sideFiles := map[string]string{
+		"side/side.go": "package side\n\nimport \"fmt\"\n\nfunc init() { fmt.Println(\"Special|side-effect|1\") }\n",
+	}
+	imp := func(with bool) string {
+		h := specialHeader()
+		if with {
+			h = "package genpkg\n\nimport _ \"genmod/side\"\n\n"
+		}
+		return h + "func Special(a int, b int, s string, xs []int) int {\n\treturn a*3 + b\n}\n"
+	}
+	out = append(out, special{Name: "side-effect-import-added", Family: "import-set", Files: sideFiles, P: imp(false), Q: imp(true), Changed: "init"})
 	// 3. exchanged select cases (only the first channel is ever ready: deterministic natively)
 	sel := func(first, second string) string {
 		return specialHeader() + fmt.Sprintf(`func Special(a int, b int, s string, xs []int) int {
